@@ -1141,6 +1141,67 @@ pub struct ZY_N0 {
     pub boxed_key: std::collections::BTreeMap<Box<ZV0>, u32>,
 }
 
+// ---- family HW: a generic type that implements TS by hand and relies on the trait's provided
+// methods (ident() from name(), dependencies() from the visitors), used by derived types --------
+
+pub struct Hand<T>(pub T);
+
+impl<T: TS> TS for Hand<T> {
+    type WithoutGenerics = Hand<ts_rs::Dummy>;
+    type OptionInnerType = Self;
+
+    fn name() -> String {
+        format!("{}<{}>", n(145), T::name())
+    }
+    fn decl() -> String {
+        format!("type {}<T> = {{ value: T, tag: {}, }};", n(145), <ZL0 as TS>::name())
+    }
+    fn decl_concrete() -> String {
+        format!("type {} = {};", n(145), Self::inline())
+    }
+    fn inline() -> String {
+        format!("{{ value: {}, tag: {}, }}", T::name(), <ZL0 as TS>::name())
+    }
+    fn inline_flattened() -> String {
+        Self::inline()
+    }
+    fn output_path() -> Option<std::path::PathBuf> {
+        let e = p(145);
+        Some(std::path::PathBuf::from(if e.ends_with('/') {
+            format!("{e}{}.ts", n(145))
+        } else {
+            e
+        }))
+    }
+    fn visit_dependencies(v: &mut impl ts_rs::TypeVisitor)
+    where
+        Self: 'static,
+    {
+        // everything inline() names: the parameter (as the derive does for a field of type T)
+        // and the tag type
+        v.visit::<T>();
+        <T as TS>::visit_generics(v);
+        v.visit::<ZL0>();
+    }
+    fn visit_generics(v: &mut impl ts_rs::TypeVisitor)
+    where
+        Self: 'static,
+    {
+        v.visit::<T>();
+        <T as TS>::visit_generics(v);
+    }
+}
+
+#[derive(TS)]
+#[ts(export_to = p(146), rename = n(146))]
+pub struct UsesHand {
+    pub h: Hand<ZL1>,
+    pub o: Option<Hand<ZL2>>,
+    pub nested: Hand<Hand<ZL3>>,
+    #[ts(inline)]
+    pub inl: Hand<ZL4>,
+}
+
 // ---- family L: literal attributes, as in ordinary user code -------------------------------
 
 #[derive(TS)]
@@ -1173,7 +1234,7 @@ pub struct L3 {
 pub struct L4(pub String);
 
 /// Number of definitions that read the table (`p(i)` / `n(i)`).
-pub const DER_DEFS: usize = 145;
+pub const DER_DEFS: usize = 147;
 
 #[derive(Clone, Copy, Debug)]
 pub enum Place {
@@ -1373,7 +1434,10 @@ pub const H_ZY_G1: usize = 164;
 pub const H_ZY_G2_ERASED: usize = 165;
 pub const H_ZY_G2: usize = 166;
 pub const H_ZY_N0: usize = 167;
-pub const DER_HANDLES: usize = 168;
+pub const HAND_DUMMY: usize = 168;
+pub const HAND_ZL1: usize = 169;
+pub const USESHAND_: usize = 170;
+pub const DER_HANDLES: usize = 171;
 
 use Place::{Lit, RenameOnly, Table as Tb};
 
@@ -1589,6 +1653,9 @@ pub const MANIFEST: [DerInfo; DER_HANDLES] = [
     DerInfo { label: "ZY_G2<Dummy,Dummy>", place: Tb(143), import_refs: &[], reach_refs: &[] },
     DerInfo { label: "ZY_G2", place: Tb(143), import_refs: &[], reach_refs: &[] },
     DerInfo { label: "ZY_N0", place: Tb(144), import_refs: &[], reach_refs: &[] },
+    DerInfo { label: "Hand<Dummy>", place: Tb(145), import_refs: &[], reach_refs: &[] },
+    DerInfo { label: "Hand<ZL1>", place: Tb(145), import_refs: &[], reach_refs: &[] },
+    DerInfo { label: "UsesHand", place: Tb(146), import_refs: &[], reach_refs: &[] },
 ];
 
 pub fn der_handle(h: usize) -> Handle {
@@ -1762,6 +1829,9 @@ pub fn der_handle(h: usize) -> Handle {
         H_ZY_G2_ERASED => handle::<ZY_G2<ts_rs::Dummy, ts_rs::Dummy, ZY13>>(l),
         H_ZY_G2 => handle::<ZY_G2<ZY11, ZY12, ZY13>>(l),
         H_ZY_N0 => handle::<ZY_N0>(l),
+        HAND_DUMMY => handle::<Hand<ts_rs::Dummy>>(l),
+        HAND_ZL1 => handle::<Hand<ZL1>>(l),
+        USESHAND_ => handle::<UsesHand>(l),
         _ => panic!("no such derived handle {h}"),
     }
 }
